@@ -62,7 +62,76 @@ def to_real(x):
     return float(x)
 
 
-SPEC = dict(hexvalue=hexvalue, hexdigit=hexdigit, upperhex=upperhex, letters=letters, pow26=pow26, bval=bval, val26=val26,
+import datetime as _dtm
+
+_EPOCH = _dtm.datetime(1970, 1, 1)
+
+
+def us(t):
+    d = t - _EPOCH
+    return (d.days * 86400 + d.seconds) * 10 ** 6 + d.microseconds
+
+
+def _us_of(y, m, d):
+    return us(_dtm.datetime(y, m, d))
+
+
+def year_start(t):
+    return _us_of(t.year, 1, 1)
+
+
+def year_len(t):
+    return _us_of(t.year + 1, 1, 1) - _us_of(t.year, 1, 1)
+
+
+def month_start(t):
+    return _us_of(t.year, t.month, 1)
+
+
+def month_len(t):
+    y, m = (t.year + 1, 1) if t.month == 12 else (t.year, t.month + 1)
+    return _us_of(y, m, 1) - _us_of(t.year, t.month, 1)
+
+
+def month_index(t):
+    return 12 * t.year + t.month - 1
+
+
+def civil_year(t):
+    return t.year
+
+
+def is_month_start(t):
+    return t.day == 1 and (t.hour, t.minute, t.second, t.microsecond) == (0, 0, 0, 0)
+
+
+def is_year_start(t):
+    return t.month == 1 and is_month_start(t)
+
+
+def in_range_years(t):
+    return 1900 <= t.year <= 2200
+
+
+def dayofyear(t):
+    return (_dtm.datetime(t.year, t.month, t.day) - _dtm.datetime(t.year, 1, 1)).days
+
+
+def weekno(t):
+    jan1 = (_dtm.datetime(t.year, 1, 1) - _EPOCH).days
+    return (dayofyear(t) + (jan1 + 4) % 7) // 7 - 1
+
+
+def _decode(x):
+    if isinstance(x, dict) and "$dt_us" in x:
+        return _EPOCH + _dtm.timedelta(microseconds=x["$dt_us"])
+    return x
+
+
+SPEC = dict(us=us, year_start=year_start, year_len=year_len, month_start=month_start, month_len=month_len,
+            month_index=month_index, civil_year=civil_year, is_month_start=is_month_start, is_year_start=is_year_start,
+            in_range_years=in_range_years, dayofyear=dayofyear, weekno=weekno)
+SPEC.update(hexvalue=hexvalue, hexdigit=hexdigit, upperhex=upperhex, letters=letters, pow26=pow26, bval=bval, val26=val26,
             implies=implies, iff=iff, is_int=is_int, to_real=to_real)
 
 
@@ -97,7 +166,7 @@ def resolve(qual):
 def main():
     job = json.load(sys.stdin)
     fn = resolve(job["qual"])
-    args = job["args"]
+    args = {k: _decode(v) for k, v in job["args"].items()}
     env0 = copy.deepcopy(args)
     try:
         for src in job.get("requires", []):
